@@ -438,7 +438,8 @@ func c16(p *core.Prog, r *core.Report) {
 		add := pair(conn, "Channel.addConnectionToPeer")
 		// in the close callback the second peer lookup is guarded by outboundHP != remote HostPort
 		rem := ""
-		for _, c := range core.CallsIn(ccs, "RootPeerList.Get") {
+		for _, ls := range peerLookups(ccs) {
+			c := ls.At
 			for _, cm := range factsAt(c.Block()).cmps {
 				if cm.Op != token.NEQ {
 					continue
